@@ -177,10 +177,10 @@ fn check(rep: &mut Report, db: &AbsDb, rng: &mut Rng, case: u64) -> Result<(), F
     // a file without a _Validation table: the user creates one (with the standard columns, or with some other shape)
     if case % 3 == 2 && !raw.tables.contains_key("_Validation") {
         let before = s.observe().map_err(|f| Fail { clause: format!("modify/{}", f.clause), what: f.what })?;
-        let cols: Vec<msi::Column> = if case % 2 == 0 {
-            vec![msi::Column::build("Table").primary_key().id_string(32), msi::Column::build("Column").primary_key().id_string(32)]
-        } else {
-            vec![
+        // the standard ten columns, a prefix of them (2..9), or one column too many
+        let n_cols = [10usize, 2, 3, 5, 9, 11, 10, 7][(case / 3 % 8) as usize];
+        let cols: Vec<msi::Column> = {
+            let mut v = vec![
                 msi::Column::build("Table").primary_key().id_string(32),
                 msi::Column::build("Column").primary_key().id_string(32),
                 msi::Column::build("Nullable").enum_values(&["Y", "N"]).string(4),
@@ -191,7 +191,10 @@ fn check(rep: &mut Report, db: &AbsDb, rng: &mut Rng, case: u64) -> Result<(), F
                 msi::Column::build("Category").nullable().string(32),
                 msi::Column::build("Set").nullable().text_string(255),
                 msi::Column::build("Description").nullable().text_string(255),
-            ]
+                msi::Column::build("Extra").nullable().int16(),
+            ];
+            v.truncate(n_cols);
+            v
         };
         let pkg = s.pkg.as_mut().unwrap();
         match crate::panicmon::guarded(|| pkg.create_table("_Validation", cols)) {
@@ -199,7 +202,7 @@ fn check(rep: &mut Report, db: &AbsDb, rng: &mut Rng, case: u64) -> Result<(), F
             Ok(Err(_)) => {
                 let after = s.observe().map_err(|f| Fail { clause: format!("modify/{}", f.clause), what: f.what })?;
                 if let Some(d) = before.diff(&after) {
-                    return Err(Fail { clause: "modify/create-_Validation-failed-and-changed".into(), what: format!("create_table(\"_Validation\", {} columns) on a file without that table returned an error and changed the package: {}", if case % 2 == 0 { 2 } else { 10 }, d) });
+                    return Err(Fail { clause: "modify/create-_Validation-failed-and-changed".into(), what: format!("create_table(\"_Validation\", {} columns) on a file without that table returned an error and changed the package: {}", n_cols, d) });
                 }
                 rep.count("create_validation_refused_cleanly");
             }
